@@ -17,6 +17,6 @@ Check2 ==
             g |-> SetToSeq({[r |-> Jsonable(r[1]), x |-> Join(r[2]), os |-> SetToSeq({OptCode(q.o) : q \in {z \in Q : z.m = r[1] /\ z.x = r[2]}})] : r \in R})])))
 \* values: all five special characters, leading/trailing blanks, tab, newline, a non-ASCII placeholder, look-alikes
 cVals == [names |-> {N(<<"a">>), N(<<"B">>)}, anames |-> {N(<<"x">>), N(<<"k", "-", "x">>)},
-          avals |-> {<<"<", "&", ">">>, <<"\"", "'">>, <<" ", "7", " ">>, <<"~">>},
-          texts |-> {<<"<", "&", ">">>, <<"\"", "'">>, <<" ", "v", "\t">>, <<"7">>, <<"~", "\n", "~">>, <<"\n">>}, maxattrs |-> 1, comments |-> FALSE]
+          avals |-> {<<"<", "&", ">">>, <<"\"", "'">>, <<" ", "7", " ">>, <<"~", "'">>},
+          texts |-> {<<"<", "&", ">">>, <<"\"", "'">>, <<" ", "v", "\t">>, <<"7">>, <<"~", "&", "\n", "~">>, <<"\n">>}, maxattrs |-> 1, comments |-> FALSE]
 =============================================================================
